@@ -10,6 +10,21 @@ import fsops
 import pipe
 
 
+
+# burst histories that are always run, each burst read in ONE read (recursive watch)
+FIXED_BURSTS = [
+    # two new top-level directories in one read, the first one populated before the reader gets to it
+    ([], [[("mkdir", "W/p"), ("mkdir", "W/p/q"), ("create", "W/p/q/f"), ("mkdir", "W/r"), ("create", "W/r/g"), ("mkdir", "W/t")],
+          [("create", "W/p/q/h")]]),
+    # names announced by the walk of a nested burst are vacated by renames and made again later (paced)
+    ([], [[("mkdir", "W/a"), ("mkdir", "W/a/b"), ("create", "W/a/b/f")], [("rename", "W/a/b/f", "W/a/b/g")], [("create", "W/a/b/f")],
+          [("rename", "W/a/b", "W/a/d")], [("mkdir", "W/a/b")], [("create", "W/a/b/n"), ("create", "W/a/d/f2")]]),
+    # two sibling sub-trees, each three deep, found by the walk only
+    ([], [[("mkdir", "W/T"), ("mkdir", "W/T/x"), ("mkdir", "W/T/y"), ("mkdir", "W/T/x/1"), ("mkdir", "W/T/y/2"), ("mkdir", "W/T/x/1/p"),
+           ("mkdir", "W/T/y/2/q"), ("create", "W/T/x/1/p/f")], [("create", "W/T/x/1/p/g"), ("create", "W/T/y/2/q/g")]]),
+]
+
+
 def run(res, tier, lean, prop="C01", proof_breaks=(), build_log=""):
     r = common.rng("pipe-" + prop)
     thorough = tier == "thorough"
@@ -203,12 +218,19 @@ def run(res, tier, lean, prop="C01", proof_breaks=(), build_log=""):
     if prop in ("C01", "C02", "C03", "C07"):
         # histories in the regime of the theorem paced_run (one operation / file storm / nested creation burst per read)
         plan += [("paced", 0)] * (6 if thorough else 2)
+        plan += [("fixedburst", k) for k in range(len(FIXED_BURSTS))]
     for i, what in enumerate(plan):
         init_b, bursts = pipe.gen_bursts(r, r.randint(3, 6))
+        fixedb = False
         if what is not None and what[0] == "paced":
             init_b, bursts = pipe.gen_paced(r, r.randint(4, 8))
             what = None
             paced = True
+        elif what is not None and what[0] == "fixedburst":
+            init_b, bursts = FIXED_BURSTS[what[1]]
+            what = None
+            paced = True
+            fixedb = True
         else:
             paced = False
         if what is not None and what[0] == "rmfault":
@@ -230,7 +252,14 @@ def run(res, tier, lean, prop="C01", proof_breaks=(), build_log=""):
             vanish = what[1]
         elif prop == "C07" and i % 2 == 1 and not paced:
             vanish = r.randint(1, 6)        # a directory vanishes just before the k-th follow-up inotify_add_watch
-        out = pipe.run_bursts(init_b, bursts, recursive=recursive, full=full, small_reads=small, vanish_at=vanish, rm_fault_at=rmf)
+        # most burst runs also hold the reader's os.read() back, so that ONE read returns the whole burst
+        if fixedb:
+            small = False
+        gate = (fixedb or r.random() < 0.7) and not small
+        out = pipe.run_bursts(init_b, bursts, recursive=recursive, full=full, small_reads=small, vanish_at=vanish, rm_fault_at=rmf,
+                              gate_reads=gate)
+        if gate:
+            res.bump("burst_histories_read_in_one_read")
         if rmf is not None and out["rm_faults"]:
             res.bump("transient_rm_watch_faults_injected")
         if out["timeout"] and not out["thread_errors"]:
